@@ -207,6 +207,22 @@ def replay(scn):
             ax = a_abs["dims"][d] if form == 0 else (d if form == 1 else d - a.ndim)
             calls += 1
             what = None
+            if form != 1 and a.axes[d].size >= 3:
+                # a preceding call on another grid with the same size, the same end labels and the same new coordinates:
+                # nothing it computed may be reused for this one
+                L = a.axes[d].values.astype(float)
+                o = np.argsort(L)
+                Ls = L[o].copy()
+                Ls[1:-1] = Ls[1:-1] + 0.25 * (Ls[2:] - Ls[1:-1])
+                L2 = np.empty_like(L)
+                L2[o] = Ls
+                b = a.copy()
+                b.set_axis(L2, axis=d)
+                try:
+                    b.interp_axis(newx, axis=ax, **kw)
+                    calls += 1
+                except Exception:  # noqa
+                    pass
             try:
                 res = a.interp_axis(newx if form == 0 else list(newx), axis=ax, **kw)
             except Exception as e:  # noqa
